@@ -7,7 +7,7 @@ against the executable references of Lib/HashRef.lean and is claimed at level `o
 -/
 import Gossamer.Model.C29
 namespace Gossamer.C29
-open Gossamer Gossamer.HashRef
+open Gossamer Gossamer.HashRef Gossamer.SigRef Gossamer.SrRef
 
 theorem u64le_length (x : UInt64) : (u64le x).length = 8 := by simp [u64le]
 
@@ -35,5 +35,159 @@ theorem C29_u64le_value (x : UInt64) : natOfLE (u64le x) = x.toNat := by
   rw [h 0 (by omega), h 1 (by omega), h 2 (by omega), h 3 (by omega), h 4 (by omega), h 5 (by omega),
     h 6 (by omega), h 7 (by omega)]
   omega
+
+/-! ### sr25519: what is provable about the reference's glue
+
+The group law, Keccak-f and the ristretto maps are executable definitions validated by correspondence
+(RFC 9496 vectors, the merlin test vector, go-schnorrkel on honest and adversarial inputs); the theorems
+below are about the framing and the format checks around them. -/
+
+/-- merlin `append_message` is exactly: one meta-AD of `label ‖ le32(len)` followed by one AD of the message -/
+theorem C29_merlin_append (t : Transcript) (label msg : Bytes) :
+    appendMessage t label msg
+      = absorb (beginOp (absorb (beginOp t (flagM ||| flagA)) (label ++ u32le msg.length)) flagA) msg := rfl
+
+/-- `challenge_bytes`: one meta-AD of `label ‖ le32(n)` followed by a PRF of n bytes -/
+theorem C29_merlin_challenge (t : Transcript) (label : Bytes) (n : Nat) :
+    challengeBytes t label n
+      = squeeze n (beginOp (absorb (beginOp t (flagM ||| flagA)) (label ++ u32le n)) (flagI ||| flagA ||| flagC)) := rfl
+
+/-- absorbing is a fold: data may be fed in pieces (the `more` continuation of STROBE) -/
+theorem C29_absorb_append (s : Strobe) (a b : Bytes) : absorb s (a ++ b) = absorb (absorb s a) b := by
+  simp [absorb, List.foldl_append]
+
+/-- the length frame is 4 bytes and determines the length below 2^32: two messages of different length
+    never produce the same framing under the same label -/
+theorem C29_merlin_len_frame (n m : Nat) (hn : n < 2 ^ 32) (hm : m < 2 ^ 32) :
+    (u32le n).length = 4 ∧ (u32le n = u32le m → n = m) := by
+  refine ⟨length_leBytes 4 n, fun h => ?_⟩
+  have h1 := natOfLE_leBytes 4 n
+  have h2 := natOfLE_leBytes 4 m
+  simp only [u32le] at h
+  rw [h] at h1
+  have e : (256 : Nat) ^ 4 = 2 ^ 32 := by decide
+  rw [e] at h1 h2
+  omega
+
+/-- a PRF of n bytes returns n bytes -/
+theorem C29_squeeze_length (n : Nat) (s : Strobe) : (squeeze n s).2.length = n := by
+  induction n generalizing s with
+  | zero => simp [squeeze]
+  | succ k ih => simp [squeeze, ih]
+
+/-- the signing context of Substrate is three framed messages on a fresh "SigningContext" transcript -/
+theorem C29_signing_context (msg : Bytes) :
+    signingContext substrateCtx msg
+      = appendMessage (appendMessage (newTranscript (str "SigningContext")) [] (str "substrate"))
+          (str "sign-bytes") msg := rfl
+
+/-- the challenge scalar is reduced: it is a canonical scalar whatever the transcript -/
+theorem C29_challenge_reduced (t : Transcript) (lb : SigLabels) (pk r : Bytes) :
+    challengeScalar t lb pk r < edL := by
+  unfold challengeScalar scalarWide
+  exact Nat.mod_lt _ (by decide)
+
+/-- **schnorrkel marker**: a signature whose marker bit (bit 7 of byte 63) is clear is rejected by the
+    reference verifier and by the model of gossamer's `VerifySignature`/`PublicKey.Verify` -/
+theorem C29_sr_marker (pk msg sig : Bytes) (h : markerSet sig = false) :
+    srVerifyRef pk msg sig = false ∧ srVerifyGo pk msg sig = false := by
+  constructor
+  · unfold srVerifyRef verifyRef
+    simp [h]
+  · unfold srVerifyGo verifyGo
+    simp [h]
+
+/-- wrong lengths are rejected before anything is parsed -/
+theorem C29_sr_lengths (pk msg sig : Bytes) (h : pk.length ≠ 32 ∨ sig.length ≠ 64) :
+    srVerifyRef pk msg sig = false ∧ srVerifyGo pk msg sig = false ∧ srVerifyDeprecatedRef pk msg sig = false := by
+  refine ⟨?_, ?_, ?_⟩
+  · unfold srVerifyRef verifyRef; simp [h]
+  · unfold srVerifyGo verifyGo; simp [h]
+  · unfold srVerifyDeprecatedRef; simp [h]
+
+/-- an accepted signature is well formed: marked, canonical scalar (s < ℓ), decodable public key -/
+theorem C29_sr_accept_wellformed (pk msg sig : Bytes) (h : srVerifyRef pk msg sig = true) :
+    pk.length = 32 ∧ sig.length = 64 ∧ markerSet sig = true ∧ sigScalar sig < edL ∧ (rDecode pk).isSome := by
+  unfold srVerifyRef verifyRef at h
+  split at h
+  · cases h
+  · rename_i hl
+    split at h
+    · cases h
+    · rename_i hm
+      split at h
+      · cases h
+      · rename_i hs
+        split at h
+        · cases h
+        · rename_i a ha
+          refine ⟨by omega, by omega, by simpa using hm, by omega, by simp [ha]⟩
+
+/-- ristretto255 DECODE only accepts canonical (< p) non-negative (even) field encodings of 32 bytes -/
+theorem C29_ristretto_canonical (b : Bytes) (q : EdPt) (h : rDecode b = some q) :
+    b.length = 32 ∧ natOfLE b < edP ∧ natOfLE b % 2 = 0 := by
+  unfold rDecode at h
+  split at h
+  · cases h
+  · rename_i hl
+    simp only at h
+    split at h
+    · cases h
+    · rename_i hp
+      split at h
+      · cases h
+      · rename_i ho
+        refine ⟨by omega, by omega, ?_⟩
+        have : natOfLE b % 2 = 0 ∨ natOfLE b % 2 = 1 := by omega
+        rcases this with e | e
+        · exact e
+        · simp [e] at ho
+
+/-- the deprecated entry point of the reference: a marked, canonical signature is judged by the current
+    protocol alone (the 0.1.1 protocol is only tried for signatures that do not parse as current ones) -/
+theorem C29_sr_deprecated_ref_marked (pk msg sig : Bytes) (hl : pk.length = 32 ∧ sig.length = 64)
+    (hm : markerSet sig = true) (hs : sigScalar sig < edL) :
+    srVerifyDeprecatedRef pk msg sig = srVerifyRef pk msg sig := by
+  unfold srVerifyDeprecatedRef
+  simp [hl.1, hl.2, hm, hs]
+
+/-- ... whereas gossamer's `VerifyDeprecated` never looks at the marker bit (finding
+    `sr25519-deprecated-differs`): its verdict on a signature and on the marked copy coincide -/
+theorem C29_sr_deprecated_go_marker_blind (pk msg sig : Bytes) (hl : sig.length = 64) :
+    srVerifyDeprecatedGo pk msg (setMarker sig) = srVerifyDeprecatedGo pk msg sig := by
+  have h63 : (sig.take 63).length = 63 := by simp [List.length_take]; omega
+  have hlen : (setMarker sig).length = 64 := by simp [setMarker, h63]
+  have hidem : setMarker (setMarker sig) = setMarker sig := by
+    have ht : (setMarker sig).take 63 = sig.take 63 := by
+      simp [setMarker, h63]
+    have hg : (setMarker sig).getD 63 0 = (sig.getD 63 0) ||| 0x80 := by
+      simp [setMarker, List.getD_eq_getElem?_getD, h63]
+    show (setMarker sig).take 63 ++ [(setMarker sig).getD 63 0 ||| 0x80] = setMarker sig
+    rw [ht, hg]
+    simp [setMarker, UInt8.or_assoc]
+  unfold srVerifyDeprecatedGo
+  simp [hl, hlen, hidem]
+
+/-! ### host functions (model of lib/runtime/wazero/imports.go) -/
+
+/-- finding `sr25519-v1-always-valid`, as a statement about the model: the verdict of
+    `ext_crypto_sr25519_verify_version_1` does not depend on message or signature -/
+theorem C29_host_sr1_ignores_signature (pk m sg m' sg' : Bytes) :
+    hostSr1Go pk m sg = hostSr1Go pk m' sg' := rfl
+
+/-- for every key other than the all-zero one, `ext_crypto_sr25519_verify_version_2` is the verifier -/
+theorem C29_host_sr2_nonzero (pk m sg : Bytes) (h : pk ≠ zeros32) :
+    hostSr2Go pk m sg = srVerifyGo pk m sg := by
+  unfold hostSr2Go
+  simp [h]
+
+/-- the recovery host functions answer `00 ‖ key` (65 or 34 bytes) or the single byte `01` -/
+theorem C29_host_recover_shape (c : Bool) (m sg : Bytes) :
+    (∃ q, ecdsaRecover m sg = some q ∧ hostRecoverGo c m sg = 0 :: (if c then compressQ q else q)) ∨
+    (ecdsaRecover m sg = none ∧ hostRecoverGo c m sg = [1]) := by
+  unfold hostRecoverGo
+  cases h : ecdsaRecover m sg with
+  | none => right; simp
+  | some q => left; exact ⟨q, rfl, by simp⟩
 
 end Gossamer.C29
